@@ -51,6 +51,8 @@ type convScn struct {
 	Stab     bool     `json:"stability,omitempty"` // C09 oracle: kept messages compared at every callback
 	Plain    bool     `json:"plain,omitempty"`     // the server's own default handlers and eventer (no recording handlers)
 	NoFilter bool     `json:"no_filter,omitempty"` // WithHasSubcontract(false): lone sub-packages reach the handlers (stability oracle only)
+	// IdleMs[i]: virtual milliseconds the terminal waits before its i-th frame (one frame per read mode only)
+	IdleMs []int `json:"idle_ms,omitempty"`
 }
 
 type convRun struct {
@@ -108,9 +110,12 @@ func convMake(scn convScn) func() (func(), any) {
 							}
 							continue
 						}
-						for _, m := range msgs {
+						for mi, m := range msgs {
 							if rep > 1 {
 								m.Serial = uint16(k)
+							}
+							if mi < len(scn.IdleMs) && scn.IdleMs[mi] > 0 {
+								vs.SleepNanos(int64(scn.IdleMs[mi])*1e6, "terminal:idle")
 							}
 							p.Send(m.frame())
 						}
